@@ -171,13 +171,15 @@ def run_child(binp, plan, timeout=120, kind="run"):
             res = json.load(f)
     m = re.search(r"^(panic|fatal error): (.*)$", err, re.M)
     panic = m.group(2).strip() if m else None
+    races = err.count("WARNING: DATA RACE")
+    if rc == 66 and races:  # exit status of a -race binary that reported races: evidence, the run itself completed
+        rc = 0
     if rc != 0 and not panic:
         raise Infra("harness child failed (%s) without a Go panic:\n%s" % (rc, err[-3000:]))
     if panic and kind == "run":
         where = "consumeEvents" if "consumeEvents" in err else ("eventLoop" if "eventLoop" in err else "other")
         with open(os.path.join(plan["out"], "trace.ndjson"), "a") as f:
             f.write(json.dumps({"n": 0, "p": 0, "l": "panic", "k": panic, "sub": 0, "ch": 0, "t": 0, "ok": False, "where": where}) + "\n")
-    races = err.count("WARNING: DATA RACE")
     return dict(rc=rc, panic=panic, stderr=err, result=res, races=races)
 
 
@@ -268,7 +270,7 @@ DEVIATIONS = [
     ("D11", dict(NClients=1, Rounds=1, MaxEvents=1), "CexNoCrash", "crash"),
     ("D12", dict(NClients=1, Rounds=2, MaxEvents=0), "CexLostD12", "lost"),
     ("D18", dict(NClients=2, Rounds=1, MaxEvents=0), "CexLostD18", "lost"),
-    ("D19", dict(NClients=1, Rounds=1, MaxEvents=0, Api="TRUE", NTopics=2, SpinTopics="{2}"), "CexNoSpin", "spin"),
+    ("D19", dict(NClients=2, Rounds=1, MaxEvents=0, Api="TRUE", NTopics=2, SpinTopics="{2}"), "CexNoSpin", "spin"),
 ]
 
 
@@ -307,15 +309,15 @@ def sub_deviations(ctx):
         steps = scheds[0]
         log("deviation %s: TLC counterexample of %d steps after %d distinct states; replaying it 3x on the real code"
             % (dk, len(steps), r["distinct"]))
-        outs = []
-        for k in range(3):
+        def once(k, dk=dk, steps=steps, consts=consts):
             plan = replay_plan(steps, consts, os.path.join(d, "%s-run%d" % (dk, k)))
             o = classify(binp, plan, ALL[:4])
             if o["cls"] == "reject":  # the tree may have this defect repaired in a way that changes the steps
                 o2 = classify(binp, plan, [x for x in ALL[:4] if x != dk])
                 if o2["cls"] == "clean":
                     o = o2
-            outs.append(o)
+            return o
+        outs = pmap(once, range(3), workers=3)
         classes = [o["cls"] for o in outs]
         ctx["replayed"] += 3
         sample = dict(deviation=dk, schedule=" ".join("%d.%s" % (s["p"], s["l"]) for s in steps if s["l"] != "idle"),
@@ -362,13 +364,15 @@ def sub_indexer(ctx):
     v, w, binp = ctx["v"], ctx["w"], ctx["bin"]
     d = w.sub("indexer")
     vlib.stage_spec(d)
-    write(os.path.join(d, "d20.cfg"), cfg("MCSpec", dict(NClients=0, MaxEvents=0, WithIndexer="TRUE", MaxHeaders=1, Known='{"D20"}'), ["NoCrash"]))
-    r = vlib.tlc(d, "FilterSystem", "d20.cfg", workers=4, timeout=900)
-    if "Deadlock reached" not in r["out"]:
-        raise Infra("deviation D20 enabled but TLC finds no deadlock (deviation vacuous):\n" + r["out"][-1500:])
+    write(os.path.join(d, "d20.cfg"), cfg("SimSpec", dict(NClients=0, MaxEvents=0, WithIndexer="TRUE", MaxHeaders=1, Known='{"D20"}'),
+                                          ["CexNoStuckQuit"], deadlock=False, view="View"))
+    r = vlib.tlc(d, "FilterSystem_sim", "d20.cfg", workers=1, timeout=900)
+    ss = sched_of(r["out"])
+    if not r["violated"] or not ss:
+        raise Infra("deviation D20 enabled but TLC finds no stuck quit re-broadcast (deviation vacuous):\n" + r["out"][-1500:])
     v.add_mc(r)
-    sched = re.findall(r"^State \d+: <(\w+) line", r["out"], re.M)
-    log("deviation D20: TLC deadlock after %d distinct states: %s" % (r["distinct"], " ".join(sched)))
+    sched = ["%d.%s" % (s["p"], s["l"]) for s in ss[0]]
+    log("deviation D20: TLC counterexample (a loop blocked for ever in its quit re-broadcast) after %d distinct states: %s" % (r["distinct"], " ".join(sched)))
     outs = []
     for k in range(3):
         plan = dict(scenario="quit-rebroadcast", headers=2, seed=k, out=os.path.join(d, "quit%d" % k))
